@@ -112,15 +112,9 @@ impl<K: Hash + Ord + PartialEq + Clone, V: Clone> CompactOrderedHashMap<K, V> {
                 }
             }
             _ => {
-                let indexed = entries
-                    .into_iter()
-                    .enumerate()
-                    .map(|(index, (k, v))| {
-                        let indexed_entry = IndexedEntry { v, index };
-                        (k, indexed_entry)
-                    })
-                    .collect::<HashMap<_, _>>();
-                S::NEntries(indexed)
+                // insert in order so that a repeated key keeps its first index and
+                // the indices stay contiguous
+                entries.into_iter().collect()
             }
         }
     }
